@@ -66,6 +66,7 @@ type storeRun struct {
 	imageRate float64
 	damageImages bool
 	images   int
+	vecKind  string
 	mirror   comet.HybridSearchIndex // in-memory reference holding the same live documents
 	live     map[int]bool
 	added    map[int]bool
@@ -227,8 +228,17 @@ func (r *storeRun) config(dir string) *comet.StorageConfig {
 	cfg.CompactionInterval = time.Hour
 	cfg.CompactionThreshold = r.compactn
 	if r.cv {
-		v, _ := comet.NewFlatIndex(2, comet.L2Squared) // fresh templates on every open
-		cfg.VectorIndexTemplate = v
+		switch r.vecKind { // fresh templates on every open
+		case "ivf":
+			v, _ := comet.NewIVFIndex(2, 2, comet.L2Squared)
+			cfg.VectorIndexTemplate = v
+		case "hnsw":
+			v, _ := comet.NewHNSWIndex(2, comet.L2Squared, 16, 64, 64) // 2M = 32 >= 9 documents: exact
+			cfg.VectorIndexTemplate = v
+		default:
+			v, _ := comet.NewFlatIndex(2, comet.L2Squared)
+			cfg.VectorIndexTemplate = v
+		}
 	}
 	if r.ct {
 		cfg.TextIndexTemplate = comet.NewBM25SearchIndex()
@@ -244,6 +254,16 @@ func (r *storeRun) open(dir string) (*comet.PersistentHybridIndex, bool) {
 	if err != nil {
 		r.emit("open.failed", E{"err": err.Error()})
 		return nil, false
+	}
+	if r.cv && r.vecKind == "ivf" { // a trained template is needed before the first add of every session
+		tr := [][]float32{}
+		for i := 0; i < 12; i++ {
+			tr = append(tr, []float32{float32(i), 0})
+		}
+		if err := st.Train(tr); err != nil {
+			r.emit("open.failed", E{"err": "train: " + err.Error()})
+			return nil, false
+		}
 	}
 	r.emit("open", E{"ok": true, "nseg": len(st.VerifSegments()), "ctr": st.VerifSegmentCounter()})
 	return st, true
@@ -294,7 +314,11 @@ func (r *storeRun) searchFull(st *comet.PersistentHybridIndex, k int, withRef bo
 	ok := true
 	var msg string
 	if r.cv {
-		rs, err := st.NewSearch().WithVector([]float32{1, 0}).WithK(k).Execute()
+		sb := st.NewSearch().WithVector([]float32{1, 0}).WithK(k)
+		if r.vecKind == "ivf" {
+			sb = sb.WithNProbes(2) // every cluster: exact
+		}
+		rs, err := sb.Execute()
 		if err != nil {
 			ok, msg = false, err.Error()
 		}
@@ -341,7 +365,11 @@ func (r *storeRun) searchThr(st *comet.PersistentHybridIndex, k, cut int) {
 		return
 	}
 	thr := float32((cut-1)*(cut-1)) + 0.5 // squared L2 from the query at document 1: document i sits at distance (i-1)^2 (document 1 at exactly 0)
-	rs, err := st.NewSearch().WithVector([]float32{1, 0}).WithK(k).WithThreshold(thr).Execute()
+	sb := st.NewSearch().WithVector([]float32{1, 0}).WithK(k).WithThreshold(thr)
+	if r.vecKind == "ivf" {
+		sb = sb.WithNProbes(2)
+	}
+	rs, err := sb.Execute()
 	msg := ""
 	if err != nil {
 		msg = err.Error()
@@ -629,6 +657,7 @@ func drvStore(args []string) error {
 	images := cf.fs.Float64("images", 0, "probability of a crash image at a hook point")
 	damage := cf.fs.Bool("damage", false, "damage one component file in (most) crash images")
 	comps := cf.fs.String("comps", "vtm", "configured templates")
+	vecKind := cf.fs.String("vec", "flat", "vector template: flat | ivf (trained after every open, all clusters probed) | hnsw (2M above the document count)")
 	cf.fs.Parse(args)
 	t, err := newTrace(*cf.out)
 	if err != nil {
@@ -642,7 +671,7 @@ func drvStore(args []string) error {
 	defer os.RemoveAll(root)
 	r := &storeRun{t: t, rng: rand.New(rand.NewSource(*cf.seed)), root: root, memcap: *memcap, compactn: *compactn,
 		cv: strings.Contains(*comps, "v"), ct: strings.Contains(*comps, "t"), cm: strings.Contains(*comps, "m"),
-		mainG: goid(), arrivals: make(chan *arrival, 64), imageRate: *images, damageImages: *damage}
+		mainG: goid(), arrivals: make(chan *arrival, 64), imageRate: *images, damageImages: *damage, vecKind: *vecKind}
 	comet.VerifSetHandler(r.handler)
 	defer comet.VerifSetHandler(nil)
 	for h := 0; h < *cf.count; h++ {
